@@ -28,6 +28,18 @@ type twCfg struct {
 	Unit   string `json:"time_unit,omitempty"` // "" = ms; "ss": the ts column holds seconds; "ns": nanoseconds
 	GapMs  int64  `json:"gap_ms,omitempty"`    // the second half of the stream (and the sentinel) lies this much later in event time
 	Block  bool   `json:"block_slow_consumer,omitempty"` // strategy block without timeout, window output buffer of 1, sink taking 20 ms per batch
+	// Base/Div/Float: timestamps of a present-day epoch (Base + (t-10000)/Div ms) handed over as float64, the type a
+	// JSON decoder produces; with Div 20 the 2 s grid of the alphabet becomes a 100 ms grid
+	Base  int64 `json:"epoch_base_ms,omitempty"`
+	Div   int64 `json:"alphabet_divisor,omitempty"`
+	Float bool  `json:"float64_timestamps,omitempty"`
+}
+
+func (c twCfg) at(t int64) int64 {
+	if c.Div > 0 {
+		return c.Base + (t-10000)/c.Div
+	}
+	return t
 }
 
 func twOpts(c twCfg) detOpts {
@@ -84,7 +96,7 @@ func twEvents(c twCfg, tsIdx []int, keyBits int) []ref.Event {
 		if c.Keys > 1 && keyBits>>uint(i)&1 == 1 {
 			k = "b"
 		}
-		ts := twTimes[x]
+		ts := c.at(twTimes[x])
 		if c.Unit == "ss" {
 			ts = ts / 1000 * 1000 // the column holds whole seconds
 		}
@@ -94,13 +106,17 @@ func twEvents(c twCfg, tsIdx []int, keyBits int) []ref.Event {
 		evs = append(evs, ref.Event{ID: i + 1, Key: k, TS: ts, V: float64(int(1) << uint(i))})
 	}
 	// sentinel far ahead (but far below now+24h of the virtual clock): pushes the watermark past every window
-	evs = append(evs, ref.Event{ID: 99, Key: "zz", TS: 500000 + c.GapMs, V: 0})
+	evs = append(evs, ref.Event{ID: 99, Key: "zz", TS: c.at(500000) + c.GapMs, V: 0})
 	return evs
 }
 
 func twFeed(c twCfg, evs []ref.Event) func(e *Env) {
 	return func(e *Env) {
 		for _, ev := range evs {
+			if c.Float {
+				e.Emit(Row{"id": ev.ID, "k": ev.Key, "ts": float64(twRowTS(c, ev.TS)), "v": ev.V})
+				continue
+			}
 			e.Emit(Row{"id": ev.ID, "k": ev.Key, "ts": twRowTS(c, ev.TS), "v": ev.V})
 		}
 	}
@@ -119,13 +135,13 @@ func twDeliveries(c twCfg, batches []Batch) ([]twDelivery, string) {
 	var out []twDelivery
 	for _, b := range batches {
 		for _, r := range b {
-			ws, ok1 := num(r["ws"])
-			we, ok2 := num(r["we"])
+			ws, ok1 := exactInt(r["ws"])
+			we, ok2 := exactInt(r["we"])
 			if !ok1 || !ok2 {
 				return nil, fmt.Sprintf("window_start/window_end not numeric in %s", js(r))
 			}
-			d := twDelivery{WS: int64(ws) / 1000000, WE: int64(we) / 1000000, IDs: sortedInts(idList(r["ids"]))}
-			if int64(ws)%1000000 != 0 || int64(we)%1000000 != 0 {
+			d := twDelivery{WS: ws / 1000000, WE: we / 1000000, IDs: sortedInts(idList(r["ids"]))}
+			if ws%1000000 != 0 || we%1000000 != 0 {
 				return nil, fmt.Sprintf("window bounds not on a millisecond: %s", js(r))
 			}
 			d.Key = "a"
@@ -281,6 +297,11 @@ func twConfigs(kind, tier string) []twCfg {
 			out = append(out, twCfg{Kind: kind, SizeMs: 2000, OOOMs: 1000, Keys: 1, MaxL: maxL, Eager: eager, GapMs: 36 * 3600 * 1000})
 		}
 		out = append(out, twCfg{Kind: kind, SizeMs: 2000, OOOMs: 0, Keys: 1, MaxL: maxL, Eager: false, Block: true})
+		for _, base := range []int64{1700000000300, 1700000000000} {
+			for _, ooo := range []int64{0, 100} {
+				out = append(out, twCfg{Kind: kind, SizeMs: 100, OOOMs: ooo, Keys: 1, MaxL: maxL, Eager: true, Base: base, Div: 20, Float: true})
+			}
+		}
 		return out
 	}
 	for _, ss := range [][2]int64{{4000, 2000}, {3000, 2000}, {2000, 2000}, {2000, 3000}, {6000, 2000}} {
@@ -301,6 +322,9 @@ func twConfigs(kind, tier string) []twCfg {
 		out = append(out, twCfg{Kind: kind, SizeMs: 4000, Slide: 2000, OOOMs: 1000, Keys: 1, MaxL: maxL, Eager: eager, GapMs: 36 * 3600 * 1000})
 	}
 	out = append(out, twCfg{Kind: kind, SizeMs: 4000, Slide: 2000, OOOMs: 0, Keys: 1, MaxL: maxL, Eager: false, Block: true})
+	for _, base := range []int64{1700000000300, 1700000000000} {
+		out = append(out, twCfg{Kind: kind, SizeMs: 200, Slide: 100, OOOMs: 100, Keys: 1, MaxL: maxL, Eager: true, Base: base, Div: 20, Float: true})
+	}
 	return out
 }
 
@@ -577,3 +601,17 @@ func twReplay(prop, kind string, v fw.Violation) (string, bool) {
 }
 
 func init() { fw.Register(c01{}); fw.Register(c08{}) }
+
+// exactInt: nanosecond bounds of a present-day epoch exceed 2^53; integers are taken as they are.
+func exactInt(v any) (int64, bool) {
+	switch x := v.(type) {
+	case int64:
+		return x, true
+	case int:
+		return int64(x), true
+	case uint64:
+		return int64(x), true
+	}
+	f, ok := num(v)
+	return int64(f), ok
+}
